@@ -273,6 +273,52 @@ fn c18_concurrent<K: Kmer + Send + Sync>(c: &mut Case) -> Result<(), String> {
     Ok(())
 }
 
+/// production-shaped use: a graph with thousands of nodes and ~10^5 k-mers handed to boomphf's chunked
+/// constructors (serial and parallel), whose later rounds skip most items through nth()
+fn c18_mphf_large(c: &mut Case) -> Result<(), String> {
+    type K = Kmer24;
+    let k = 24;
+    let n_nodes = if c.lane_miri { 3 } else { c.rng.range(800, 2500) };
+    let mut b: BaseGraph<K, u8> = BaseGraph::new(true);
+    let mut flat: Vec<S> = Vec::new();
+    for _ in 0..n_nodes {
+        let len = k + *c.rng.pick(&[0usize, 1, 3, 4, 5, 20, 60, 150]);
+        let s = c.rng.bases(len, 4);
+        // K = 24 random windows are distinct with overwhelming probability; verified below
+        flat.extend(s.windows(k).map(|w| w.to_vec()));
+        b.add(&s, Exts::empty(), 0u8);
+    }
+    {
+        let mut sorted = flat.clone();
+        sorted.sort();
+        sorted.dedup();
+        if sorted.len() != flat.len() {
+            return Ok(()); // (practically never) a repeated window: not a valid MPHF input
+        }
+    }
+    let g = b.finish_serial();
+    let n = flat.len() as u64;
+    let threads = *c.rng.pick(&[2usize, 4, 8, 16]);
+    for par in [false, true] {
+        let mphf: Mphf<K> = if par {
+            Mphf::from_chunked_iterator_parallel(1.7, &g, None, n, threads)
+        } else {
+            Mphf::from_chunked_iterator(1.7, &g, n)
+        };
+        let mut seen = vec![false; flat.len()];
+        for w in &flat {
+            let h = mphf.hash(&kfrom::<K>(w)) as usize;
+            ensure!(h < flat.len(), "MPHF slot {} out of range 0..{}", h, n);
+            ensure!(!seen[h], "chunked MPHF (parallel={}, {} threads) over {} nodes / {} k-mers gives two graph k-mers the same slot", par, threads, n_nodes, n);
+            seen[h] = true;
+        }
+    }
+    c.count("large_mphf_graphs", 1);
+    c.count("large_mphf_kmers", n);
+    c.nontrivial(H::new().u(n).u(c.idx).get());
+    Ok(())
+}
+
 pub const RULE_C18: &str = "case = graph built from a hostile read set (direct pipeline) plus a synthetic multi-node graph with node lengths K..K+70; every node's iterator is driven twice by a random interleaving of next() and nth(n) with n in {0, 0-4, 5-12, remaining-1, remaining, remaining+1.., usize::MAX-ish, random} against a model cursor until 4 pulls after the end; checked: item == model window, None exactly when the model is exhausted, no Some after the end, len()/size_hint up front; iteration over &graph == all windows once in order; Mphf::from_chunked_iterator and _parallel (2,3,8 threads) are bijections; distinct = hash(read set, synthetic node count); non-trivial = more than one node";
 
 pub fn run_c18(ctx: &Ctx) {
@@ -287,6 +333,10 @@ pub fn run_c18(ctx: &Ctx) {
         _ => c18_concurrent::<Kmer32>(c),
     });
     if !ctx.is_miri() {
+        ctx.run_group_t("mphf_large", ctx.n(40, 1000), false, 4, |c| c18_mphf_large(c));
+    }
+    if !ctx.is_miri() {
+        ctx.require("large_mphf_kmers", 100_000);
         ctx.require("concurrent_long_skips", 1000);
         ctx.require("skips_reaching_past_the_end", 1000);
         ctx.require("long_skips", 1000);
